@@ -158,6 +158,9 @@ def run_fault(sc, root, helper, n_postop=1, extra_opts=None, hook_exits=None, ti
             rule["from"] = sc["pos"][1]
             rule["times"] = sc["times"]
         rules.append(rule)
+    # multi-fault scripts: the faults listed under "second" / "more" are injected as well
+    for fs in ([sc["second"]] if sc.get("second") else []) + list(sc.get("more") or []):
+        add_fault(fs, opts, rules, helper)
     cert = {"name": "crt", "identifiers": IDENTS, "kp_reuse": bool(sc.get("kp_reuse")), "key_type": "ecdsa_p256"}
     if sc.get("random_early_renew"):
         # non-default jitter: with an installed certificate that is already due, the time left is zero
@@ -174,6 +177,33 @@ def run_fault(sc, root, helper, n_postop=1, extra_opts=None, hook_exits=None, ti
     obs.update({"sc": sc, "initial": initial, "initial_raw": initial_raw, "final_raw": final_raw,
                 "post_snap": snap, "posts": posts, "crt_path": crt, "key_path": key})
     return obs
+
+
+def add_fault(fs, opts, rules, helper):
+    """One more fault (an entry of `grid()`) for the same run: one more rule of the mock CA, or one
+    more switch of it.  When two rules name the same request, the first one answers it."""
+    ans = dict(fs["answer"])
+    if ans.pop("chain_reversed", False):
+        opts["chain_order"] = "reversed"
+        opts["chain_len"] = 3
+    elif "chain_opts" in ans:
+        opts.update(ans.pop("chain_opts"))
+    elif ans.pop("other_key_cert", False):
+        other = helper.call({"op": "selfsigned", "dns": [i["dns"] for i in IDENTS], "ips": [], "not_after_offset": 90 * 86400})
+        opts["cert_body"] = other["cert_pem"]
+    else:
+        rule = {"kind": fs["pos"][0], "answer": ans, "label": fs["fault"]}
+        if fs["times"] == 1:
+            rule["nth"] = fs["pos"][1]
+        else:
+            rule["from"] = fs["pos"][1]
+            rule["times"] = fs["times"]
+        rules.append(rule)
+
+
+def faults_fired(obs):
+    """Labels of the injected rules that answered a request, in the order they fired."""
+    return [e["rule"] for e in obs["ca"] if e["kind"] == "req" and e.get("rule")]
 
 
 def fault_hit(obs):
